@@ -143,6 +143,6 @@ func VerifC12_SecondPut() {
 
 func VerifC12_MustFail() {
 	w := NewWrapper(NewMemory(), 0x7fffffffffffffff)
-	ci := verifAnyItem(true, []int64{1})
-	verifAssert(w.Put(ci.item) != nil, "twin: no mutable item is ever accepted (must fail)")
+	ci := verifAnyItem(false, []int64{1})
+	verifAssert(w.Put(ci.item) != nil, "twin: no immutable item is ever accepted (must fail)")
 }
